@@ -136,7 +136,9 @@ CHECKS = {
         "every call sequence up to depth 2-3 over two worlds and checks dataset-untouched, same-inputs-same-outcome (history independence), "
         "one-frame scene = frame score, ground-truth counts add, order independence of pooled AP under distinct confidences; the as-built aliasing "
         "switch must yield TLC's counterexample. Every reached history is replayed on one real manager using the manager's own ground-truth frame "
-        "objects, comparing each frame result, the caller's list, ground_truth_frames after every call and get_scene_result.",
+        "objects, comparing each frame result, the caller's list, ground_truth_frames after every call and get_scene_result. MetricsShape.tla is the "
+        "life of one MetricsScore (families per task, one score per threshold row in mode order, ground-truth count added exactly once); every "
+        "terminated state is replayed through a real manager at frame and scene level.",
         note="tie-free worlds so each call has one outcome; detection task (tracking predecessor: C05 drivers); depth 2 (quick) / 3 (thorough)",
         design="DESIGN.md 5 (C13)",
         technique="TLA+ state machine over call histories + TLC exhaustive; spec->code replay of every history",
